@@ -31,6 +31,7 @@ type ModelCfg struct {
 	Crash     bool // replay = crash-point enumeration of the path as a workload (C04)
 	Nested    bool // also crash every recovery
 	Prune     bool // crash workloads run on a pruned node (tiny block files, preamble blocks to prune)
+	BIP34     bool // network with BIP34 from height 1, BIP66 from abstract height 2, BIP65 from abstract height 3 (catalogue models)
 }
 
 func b2s(b bool) string {
@@ -307,8 +308,44 @@ func replayPath(ctx *vrun.Ctx, prop string, f *Factory, path []tlc.Step, cache u
 	return nil
 }
 
+type tlcOut struct {
+	res *tlc.Result
+	err error
+}
+
+// prefetched holds TLC runs started ahead of their replay (quick tier: the
+// model checking of the later configurations overlaps the replay of the
+// earlier ones).
+var prefetched = map[string]chan tlcOut{}
+
+// Prefetch starts TLC for the given configurations, at most par at a time.
+func Prefetch(ctx *vrun.Ctx, models []ModelCfg, par int, timeout time.Duration) {
+	sem := make(chan struct{}, par)
+	w := ctx.Workers / par
+	if w < 2 {
+		w = 2
+	}
+	for _, m := range models {
+		if only := os.Getenv("VERIF_ONLY"); only != "" && only != m.Name {
+			continue
+		}
+		ch := make(chan tlcOut, 1)
+		prefetched[m.Name] = ch
+		go func(m ModelCfg) {
+			sem <- struct{}{}
+			defer func() { <-sem }()
+			res, err := tlc.Run(tlc.Opts{SpecDir: ctx.SpecDir("chain"), Module: "Chain", CfgText: m.Text(chainInvariants),
+				Workers: w, Timeout: timeout, DumpGraph: m.Graph, Scratch: ctx.Scratch, HeapGB: 4})
+			ch <- tlcOut{res, err}
+		}(m)
+	}
+}
+
 // RunModel runs TLC on one configuration and replays covering paths.
 func RunModel(ctx *vrun.Ctx, prop string, m ModelCfg, timeout time.Duration) error {
+	if only := os.Getenv("VERIF_ONLY"); only != "" && only != m.Name { // development aid
+		return nil
+	}
 	w := m.Workers
 	if w == 0 {
 		w = ctx.Workers
@@ -316,8 +353,15 @@ func RunModel(ctx *vrun.Ctx, prop string, m ModelCfg, timeout time.Duration) err
 			w = 12
 		}
 	}
-	res, err := tlc.Run(tlc.Opts{SpecDir: ctx.SpecDir("chain"), Module: "Chain", CfgText: m.Text(chainInvariants),
-		Workers: w, Timeout: timeout, DumpGraph: m.Graph, Coverage: ctx.Thorough && !m.Graph, Scratch: ctx.Scratch, HeapGB: 8})
+	var res *tlc.Result
+	var err error
+	if ch := prefetched[m.Name]; ch != nil {
+		out := <-ch
+		res, err = out.res, out.err
+	} else {
+		res, err = tlc.Run(tlc.Opts{SpecDir: ctx.SpecDir("chain"), Module: "Chain", CfgText: m.Text(chainInvariants),
+			Workers: w, Timeout: timeout, DumpGraph: m.Graph, Coverage: ctx.Thorough && !m.Graph, Scratch: ctx.Scratch, HeapGB: 8})
+	}
 	if err != nil {
 		return err
 	}
@@ -342,16 +386,58 @@ func RunModel(ctx *vrun.Ctx, prop string, m ModelCfg, timeout time.Duration) err
 	if m.MaxPaths == 0 && covered == g.Edges {
 		ctx.AddExtra("configs_fully_covered", 1)
 	}
-	// one factory per scenario
+	// one factory per (scenario, forced catalogue entries); in catalogue mode
+	// the rule a flawed block violates and the limit a valid block sits on are
+	// swept over the catalogue along the paths instead of drawn at random
 	type fent struct {
 		once sync.Once
 		f    *Factory
 		seed int64
+		refs int
 	}
 	var fmu sync.Mutex
 	facts := map[string]*fent{}
-	getF := func(sc *Scenario) (*Factory, int64) {
-		k := scenarioKey(sc)
+	var byStage map[string][]string
+	var edges []string
+	if m.Catalogue {
+		byStage = map[string][]string{}
+		for i := range Catalogue {
+			r := &Catalogue[i]
+			if !(m.Headers && r.HeaderVisible) {
+				byStage[r.Stage] = append(byStage[r.Stage], r.Name)
+			}
+			if r.Edge != nil {
+				edges = append(edges, r.Name)
+			}
+		}
+	}
+	variants := 1 << 30
+	if m.MaxPaths == 0 || m.MaxPaths > 20000 {
+		variants = 6 // bound the number of factories per scenario on large runs
+	}
+	forcedOf := func(i int, sc *Scenario) (string, string) {
+		if !m.Catalogue {
+			return "", ""
+		}
+		h := 0
+		for _, c := range []byte(scenarioKey(sc)) {
+			h = (h*131 + int(c)) & 0xffffff
+		}
+		v := h + i%variants
+		rule := ""
+		for b := 1; b <= sc.N; b++ {
+			if st := sc.Flaw[b]; st != "none" && len(byStage[st]) > 0 {
+				rule = byStage[st][v%len(byStage[st])]
+			}
+		}
+		return rule, edges[(v*7+i%variants)%len(edges)]
+	}
+	keyOf := func(i int, sc *Scenario) string {
+		r, e := forcedOf(i, sc)
+		return scenarioKey(sc) + "|" + r + "|" + e
+	}
+	getF := func(i int, sc *Scenario) (*Factory, int64) {
+		k := keyOf(i, sc)
 		fmu.Lock()
 		e := facts[k]
 		if e == nil {
@@ -369,9 +455,23 @@ func RunModel(ctx *vrun.Ctx, prop string, m ModelCfg, timeout time.Duration) err
 				e.f = NewFactory(sc, NetOpts{Maturity: 1, BIP34: false}, e.seed)
 				e.f.Preamble(14)
 			} else if m.Catalogue {
-				e.f = NewFactory(sc, NetOpts{Maturity: 2, BIP34: false}, e.seed)
+				o := NetOpts{Maturity: 2, BIP34: false}
+				if m.BIP34 {
+					// BIP34 from height 1; BIP66 and BIP65 start at abstract height 1..3 (preamble: 5 blocks), varied per factory
+					hs := [][2]int32{{6, 6}, {6, 7}, {7, 7}, {7, 8}, {6, 8}}[uint64(e.seed)%5]
+					o = NetOpts{Maturity: 2, BIP34: true, B66: hs[0], B65: hs[1]}
+				}
+				e.f = NewFactory(sc, o, e.seed)
 				e.f.Catalogue = true
 				e.f.HeaderMode = m.Headers
+				rule, edge := forcedOf(i, sc)
+				for b := 1; b <= sc.N; b++ {
+					if sc.Flaw[b] != "none" {
+						e.f.ForceRule[b] = rule
+					} else {
+						e.f.ForceRule[b] = "edge:" + edge
+					}
+				}
 				e.f.Preamble(5)
 			} else {
 				e.f = NewFactory(sc, NetOpts{Maturity: 1, BIP34: false}, e.seed)
@@ -385,14 +485,35 @@ func RunModel(ctx *vrun.Ctx, prop string, m ModelCfg, timeout time.Duration) err
 		})
 		return e.f, e.seed
 	}
+	// paths that share a factory run next to each other and the factory is
+	// dropped after the last of them (some catalogue blocks are 1 MB)
+	order := make([]int, 0, len(paths))
+	pkey := make([]string, len(paths))
+	for i, p := range paths {
+		if len(p) == 0 {
+			continue
+		}
+		pkey[i] = keyOf(i, ScenarioOf(p[0].From.State))
+		order = append(order, i)
+	}
+	sort.SliceStable(order, func(a, b int) bool { return pkey[order[a]] < pkey[order[b]] })
+	refs := map[string]int{}
+	for _, i := range order {
+		refs[pkey[i]]++
+	}
+	release := func(i int) {
+		fmu.Lock()
+		refs[pkey[i]]--
+		if refs[pkey[i]] == 0 {
+			delete(facts, pkey[i])
+		}
+		fmu.Unlock()
+	}
 	// deterministic per-path choices
 	caches := []uint64{0, 1 << 20, 600}
 	cacheSel := make([]int, len(paths))
 	for i := range paths {
 		cacheSel[i] = rng.Intn(len(caches))
-	}
-	if only := os.Getenv("VERIF_ONLY"); only != "" && only != m.Name { // development aid
-		return nil
 	}
 	var firstErr error
 	var emu sync.Mutex
@@ -400,13 +521,12 @@ func RunModel(ctx *vrun.Ctx, prop string, m ModelCfg, timeout time.Duration) err
 	if m.Crash {
 		coll = newCollector()
 	}
-	ctx.Parallel(len(paths), func(i int) {
+	ctx.Parallel(len(order), func(oi int) {
+		i := order[oi]
 		p := paths[i]
-		if len(p) == 0 {
-			return
-		}
+		defer release(i)
 		sc := ScenarioOf(p[0].From.State)
-		f, fseed := getF(sc)
+		f, fseed := getF(i, sc)
 		var err error
 		if m.Crash {
 			if m.Prune {
